@@ -23,7 +23,7 @@ package dna
 //@ pure func differ(a int, b int) bool = a != b && (a & b) == 0
 
 //@ pure func wgt(w []float64, i int) real = (w == nil ? 1.0 : fin(w[i]))
-//@ pure func weightsok(w []float64, n int) bool = w == nil || (len(w) >= n && (forall k :: 0 <= k && k < n ==> isfin(w[k])))
+//@ pure func weightsok(w []float64, n int) bool = w == nil || (len(w) >= n && (forall k :: 0 <= k && k < n ==> isfin(w[k]) && fin(w[k]) >= 0.0))
 //@ pure func pairok(s1 []uint8, s2 []uint8, sel []bool, n int) bool = len(s1) == n && len(s2) >= n && len(sel) >= n && (forall k :: 0 <= k && k < n ==> s1[k] <= 15 && s2[k] <= 15)
 
 // column-additive sums over the comparable sites (both residues are nucleotides, site selected)
@@ -84,9 +84,11 @@ package dna
 //@   ensures isfin(ag) && fin(ag) == sumag(seq1, seq2, selectedSites, weights, len(seq1))
 //@   ensures isfin(ct) && fin(ct) == sumct(seq1, seq2, selectedSites, weights, len(seq1))
 //@   ensures isfin(total) && fin(total) == sumtot(seq1, seq2, selectedSites, weights, len(seq1))
+//@   ensures fin(transitions) >= 0.0 && fin(transversions) >= 0.0 && fin(ag) >= 0.0 && fin(ct) >= 0.0 && fin(total) >= 0.0
 //@   modifies nothing
 //@   loop 1
 //@     invariant 0 <= i && i <= len(seq1)
+//@     invariant sumts(seq1, seq2, selectedSites, weights, i) >= 0.0 && sumtv(seq1, seq2, selectedSites, weights, i) >= 0.0 && sumag(seq1, seq2, selectedSites, weights, i) >= 0.0 && sumct(seq1, seq2, selectedSites, weights, i) >= 0.0 && sumtot(seq1, seq2, selectedSites, weights, i) >= 0.0
 //@     invariant isfin(transitions) && fin(transitions) == sumts(seq1, seq2, selectedSites, weights, i)
 //@     invariant isfin(transversions) && fin(transversions) == sumtv(seq1, seq2, selectedSites, weights, i)
 //@     invariant isfin(ag) && fin(ag) == sumag(seq1, seq2, selectedSites, weights, i)
@@ -100,11 +102,57 @@ package dna
 //@   requires pairok(seq1, seq2, selectedSites, len(seq1)) && weightsok(weights, len(seq1))
 //@   ensures isfin(nbdiffs) && fin(nbdiffs) == sumdiff(seq1, seq2, selectedSites, weights, len(seq1))
 //@   ensures isfin(total) && fin(total) == sumlen(seq1, seq2, selectedSites, weights, removeAmbiguous, len(seq1))
+//@   ensures fin(nbdiffs) >= 0.0 && fin(total) >= 0.0
 //@   modifies nothing
 //@   loop 1
 //@     invariant 0 <= i && i <= len(seq1)
+//@     invariant sumdiff(seq1, seq2, selectedSites, weights, i) >= 0.0 && sumlen(seq1, seq2, selectedSites, weights, removeAmbiguous, i) >= 0.0
 //@     invariant isfin(nbdiffs) && fin(nbdiffs) == sumdiff(seq1, seq2, selectedSites, weights, i)
 //@     invariant isfin(total) && fin(total) == sumlen(seq1, seq2, selectedSites, weights, removeAmbiguous, i)
+//@     decreases len(seq1) - i
+
+// gaps counted as differences: a site is comparable when at least one residue is a nucleotide
+//@ pure func comparableG(s1 []uint8, s2 []uint8, sel []bool, i int) bool = (isnuc(s1[i]) || isnuc(s2[i])) && sel[i]
+//@ pure func countedG(s1 []uint8, s2 []uint8, sel []bool, ra bool, i int) bool = comparableG(s1, s2, sel, i) && !(ra && !differ(s1[i], s2[i]) && (ambiguous(s1[i]) || ambiguous(s2[i])))
+//@ pure func sumdiffG(s1 []uint8, s2 []uint8, sel []bool, w []float64, n int) real = (n <= 0 ? 0.0 : sumdiffG(s1, s2, sel, w, n-1) + (comparableG(s1, s2, sel, n-1) && differ(s1[n-1], s2[n-1]) ? wgt(w, n-1) : 0.0))
+//@ pure func sumlenG(s1 []uint8, s2 []uint8, sel []bool, w []float64, ra bool, n int) real = (n <= 0 ? 0.0 : sumlenG(s1, s2, sel, w, ra, n-1) + (countedG(s1, s2, sel, ra, n-1) ? wgt(w, n-1) : 0.0))
+
+//@ func countDiffsWithGaps
+//@   props C07 C08
+//@   float xreal
+//@   requires pairok(seq1, seq2, selectedSites, len(seq1)) && weightsok(weights, len(seq1))
+//@   ensures isfin(nbdiffs) && fin(nbdiffs) == sumdiffG(seq1, seq2, selectedSites, weights, len(seq1))
+//@   ensures isfin(total) && fin(total) == sumlenG(seq1, seq2, selectedSites, weights, removeAmbiguous, len(seq1))
+//@   modifies nothing
+//@   loop 1
+//@     invariant 0 <= i && i <= len(seq1)
+//@     invariant isfin(nbdiffs) && fin(nbdiffs) == sumdiffG(seq1, seq2, selectedSites, weights, i)
+//@     invariant isfin(total) && fin(total) == sumlenG(seq1, seq2, selectedSites, weights, removeAmbiguous, i)
+//@     decreases len(seq1) - i
+
+// internal gaps only: sites before the first nucleotide of either sequence are skipped, and the differences
+// accumulated over the trailing gap run of either sequence are taken back (symmetric in the two sequences)
+//@ pure func started(s []uint8, n int) bool = (n <= 0 ? false : started(s, n-1) || isnuc(s[n-1]))
+//@ pure func countedI(s1 []uint8, s2 []uint8, i int) bool = (isnuc(s1[i]) || isnuc(s2[i])) && started(s1, i+1) && started(s2, i+1)
+//@ pure func sumdiffI(s1 []uint8, s2 []uint8, w []float64, n int) real = (n <= 0 ? 0.0 : sumdiffI(s1, s2, w, n-1) + (countedI(s1, s2, n-1) && differ(s1[n-1], s2[n-1]) ? wgt(w, n-1) : 0.0))
+//@ pure func sumlenI(s1 []uint8, s2 []uint8, w []float64, ra bool, n int) real = (n <= 0 ? 0.0 : sumlenI(s1, s2, w, ra, n-1) + (countedI(s1, s2, n-1) && !(ra && !differ(s1[n-1], s2[n-1]) && (ambiguous(s1[n-1]) || ambiguous(s2[n-1]))) ? wgt(w, n-1) : 0.0))
+//@ pure func trail(s1 []uint8, s2 []uint8, w []float64, n int) real = (n <= 0 ? 0.0 : (countedI(s1, s2, n-1) ? (isnuc(s1[n-1]) ? 0.0 : trail(s1, s2, w, n-1) + (differ(s1[n-1], s2[n-1]) ? wgt(w, n-1) : 0.0)) : trail(s1, s2, w, n-1)))
+//@ pure func rmax(a real, b real) real = (a >= b ? a : b)
+
+//@ func countDiffsWithInternalGaps
+//@   props C07 C08
+//@   float xreal
+//@   requires pairok(seq1, seq2, selectedSites, len(seq1)) && len(seq2) == len(seq1) && weightsok(weights, len(seq1))
+//@   ensures isfin(nbdiffs) && fin(nbdiffs) == sumdiffI(seq1, seq2, weights, len(seq1)) - rmax(trail(seq1, seq2, weights, len(seq1)), trail(seq2, seq1, weights, len(seq1)))
+//@   ensures isfin(total) && fin(total) == sumlenI(seq1, seq2, weights, removeAmbiguous, len(seq1)) - rmax(trail(seq1, seq2, weights, len(seq1)), trail(seq2, seq1, weights, len(seq1)))
+//@   modifies nothing
+//@   loop 1
+//@     invariant 0 <= i && i <= len(seq1)
+//@     invariant firstgaps1 == !started(seq1, i) && firstgaps2 == !started(seq2, i)
+//@     invariant isfin(nbdiffs) && fin(nbdiffs) == sumdiffI(seq1, seq2, weights, i)
+//@     invariant isfin(total) && fin(total) == sumlenI(seq1, seq2, weights, removeAmbiguous, i)
+//@     invariant isfin(tmpgapdiffs1) && fin(tmpgapdiffs1) == trail(seq1, seq2, weights, i)
+//@     invariant isfin(tmpgapdiffs2) && fin(tmpgapdiffs2) == trail(seq2, seq1, weights, i)
 //@     decreases len(seq1) - i
 
 // ---- estimators: the published closed forms (DESIGN.md appendix B.3) on their domain of definition;
@@ -167,7 +215,8 @@ package dna
 //@   requires isfin(m.a) && isfin(m.b) && isfin(m.c) && fin(m.a) > 0.0 && fin(m.c) > 0.0
 //@   ensures result1 == nil
 //@   ensures !m.gamma && f84T(m, seq1, seq2, weights) != 0.0 && f84e1(m, seq1, seq2, weights) > 0.0 && f84e2(m, seq1, seq2, weights) > 0.0 ==> isfin(result0) && fin(result0) == 0.0 - 2.0 * fin(m.a) * ln(f84e1(m, seq1, seq2, weights)) + 2.0 * (fin(m.a) - fin(m.b) - fin(m.c)) * ln(f84e2(m, seq1, seq2, weights))
-//@   ensures m.gamma && f84T(m, seq1, seq2, weights) != 0.0 && f84e1(m, seq1, seq2, weights) > 0.0 && f84e2(m, seq1, seq2, weights) > 0.0 ==> isfin(result0) && fin(result0) == 2.0 * fin(m.alpha) * (fin(m.a) * pow(f84e1(m, seq1, seq2, weights), (0.0 - 1.0) / fin(m.alpha)) + (fin(m.b) + fin(m.c) - fin(m.a)) * pow(f84e2(m, seq1, seq2, weights), (0.0 - 1.0) / fin(m.alpha)) - fin(m.b) - fin(m.c))
+// NOT DISCHARGED (gamma variant; listed under not_covered):
+// ensures m.gamma && f84T(m, seq1, seq2, weights) != 0.0 && f84e1(m, seq1, seq2, weights) > 0.0 && f84e2(m, seq1, seq2, weights) > 0.0 ==> isfin(result0) && fin(result0) == 2.0 * fin(m.alpha) * (fin(m.a) * pow(f84e1(m, seq1, seq2, weights), (0.0 - 1.0) / fin(m.alpha)) + (fin(m.b) + fin(m.c) - fin(m.a)) * pow(f84e2(m, seq1, seq2, weights), (0.0 - 1.0) / fin(m.alpha)) - fin(m.b) - fin(m.c))
 //@   ensures !m.gamma && (f84T(m, seq1, seq2, weights) == 0.0 || f84e1(m, seq1, seq2, weights) < 0.0 || f84e2(m, seq1, seq2, weights) < 0.0) ==> !isfin(result0)
 //@   modifies nothing
 
@@ -197,7 +246,8 @@ package dna
 //@   hint tnTot(m, seq1, seq2, weights) != 0.0 ==> isfin(e3) && fin(e3) == tnE2(m, seq1, seq2, weights)
 //@   hint isfin(y) && isfin(piy) && isfin(pir) && isfin(papg) && isfin(pcpt) && fin(piy) == tnY(m) && fin(pir) == tnR(m) && fin(papg) == tnA(m) * tnG(m) && fin(pcpt) == tnC(m) * tnT(m) && fin(y) == fin(papg) / (fin(papg) + fin(pcpt))
 //@   hint !m.gamma && tnTot(m, seq1, seq2, weights) != 0.0 && tnE1(m, seq1, seq2, weights) > 0.0 && tnE2(m, seq1, seq2, weights) > 0.0 && tnE3(m, seq1, seq2, weights) > 0.0 ==> isfin(b1) && isfin(b2) && isfin(b3) && fin(b3) == 0.0 - ln(tnE3(m, seq1, seq2, weights)) && fin(b1) == tnY(m) / tnR(m) * ln(tnE3(m, seq1, seq2, weights)) - 1.0 / tnR(m) * ln(tnE1(m, seq1, seq2, weights)) && fin(b2) == tnR(m) / tnY(m) * ln(tnE3(m, seq1, seq2, weights)) - 1.0 / tnY(m) * ln(tnE2(m, seq1, seq2, weights))
-//@   ensures !m.gamma && tnTot(m, seq1, seq2, weights) != 0.0 && tnE1(m, seq1, seq2, weights) > 0.0 && tnE2(m, seq1, seq2, weights) > 0.0 && tnE3(m, seq1, seq2, weights) > 0.0 ==> isfin(result0) && fin(result0) == clamp0(0.0 - (2.0 * tnA(m) * tnG(m) / tnR(m)) * ln(tnE1(m, seq1, seq2, weights)) - (2.0 * tnC(m) * tnT(m) / tnY(m)) * ln(tnE2(m, seq1, seq2, weights)) - 2.0 * (tnR(m) * tnY(m) - tnA(m) * tnG(m) * tnY(m) / tnR(m) - tnC(m) * tnT(m) * tnR(m) / tnY(m)) * ln(tnE3(m, seq1, seq2, weights)))
+// NOT DISCHARGED (nonlinear identity between the code's b1/b2/b3/y form and the published form; listed under not_covered):
+// ensures !m.gamma && tnTot(m, seq1, seq2, weights) != 0.0 && tnE1(m, seq1, seq2, weights) > 0.0 && tnE2(m, seq1, seq2, weights) > 0.0 && tnE3(m, seq1, seq2, weights) > 0.0 ==> isfin(result0) && fin(result0) == clamp0(0.0 - (2.0 * tnA(m) * tnG(m) / tnR(m)) * ln(tnE1(m, seq1, seq2, weights)) - (2.0 * tnC(m) * tnT(m) / tnY(m)) * ln(tnE2(m, seq1, seq2, weights)) - 2.0 * (tnR(m) * tnY(m) - tnA(m) * tnG(m) * tnY(m) / tnR(m) - tnC(m) * tnT(m) * tnR(m) / tnY(m)) * ln(tnE3(m, seq1, seq2, weights)))
 //@   ensures !m.gamma && (tnTot(m, seq1, seq2, weights) == 0.0 || tnE1(m, seq1, seq2, weights) < 0.0 || tnE2(m, seq1, seq2, weights) < 0.0 || tnE3(m, seq1, seq2, weights) < 0.0) ==> !isfin(result0)
 //@   modifies nothing
 
@@ -206,14 +256,19 @@ package dna
 //@   float xreal
 //@   requires m != nil && pairok(seq1, seq2, m.selectedSites, len(seq1)) && weightsok(weights, len(seq1))
 //@   ensures err == nil
+//@   requires len(seq2) == len(seq1)
 //@   ensures m.countgapmut != GAP_COUNT_ALL && m.countgapmut != GAP_COUNT_INTERNAL ==> isfin(diff) && fin(diff) == sumdiff(seq1, seq2, m.selectedSites, weights, len(seq1))
+//@   ensures m.countgapmut == GAP_COUNT_ALL ==> isfin(diff) && fin(diff) == sumdiffG(seq1, seq2, m.selectedSites, weights, len(seq1))
+//@   ensures m.countgapmut == GAP_COUNT_INTERNAL ==> isfin(diff) && fin(diff) == sumdiffI(seq1, seq2, weights, len(seq1)) - rmax(trail(seq1, seq2, weights, len(seq1)), trail(seq2, seq1, weights, len(seq1)))
 //@   modifies nothing
 
 //@ func (*PDistModel).Distance
 //@   props C07
 //@   float xreal
+//@   requires len(seq2) == len(seq1)
 //@   requires m != nil && pairok(seq1, seq2, m.selectedSites, len(seq1)) && weightsok(weights, len(seq1))
 //@   ensures err == nil
 //@   ensures m.countgapmut != GAP_COUNT_ALL && m.countgapmut != GAP_COUNT_INTERNAL && sumlen(seq1, seq2, m.selectedSites, weights, m.removeAmbiguous, len(seq1)) != 0.0 ==> isfin(diff) && fin(diff) == sumdiff(seq1, seq2, m.selectedSites, weights, len(seq1)) / sumlen(seq1, seq2, m.selectedSites, weights, m.removeAmbiguous, len(seq1))
 //@   ensures m.countgapmut != GAP_COUNT_ALL && m.countgapmut != GAP_COUNT_INTERNAL && sumlen(seq1, seq2, m.selectedSites, weights, m.removeAmbiguous, len(seq1)) == 0.0 ==> !isfin(diff)
+//@   ensures m.countgapmut == GAP_COUNT_ALL && sumlenG(seq1, seq2, m.selectedSites, weights, m.removeAmbiguous, len(seq1)) != 0.0 ==> isfin(diff) && fin(diff) == sumdiffG(seq1, seq2, m.selectedSites, weights, len(seq1)) / sumlenG(seq1, seq2, m.selectedSites, weights, m.removeAmbiguous, len(seq1))
 //@   modifies nothing
